@@ -51,6 +51,10 @@ def root_name(e):
     return e.id if isinstance(e, ast.Name) else None
 
 
+def is_none(e):
+    return isinstance(e, ast.Constant) and e.value is None
+
+
 def is_const(e, v):
     return isinstance(e, ast.Constant) and type(e.value) is type(v) and e.value == v
 
@@ -359,7 +363,9 @@ def check_immutable(repo):
         for meth in ("__init__", "copy_with"):
             fn = repo.find(f"abelian_core.{c}.{meth}")
             src = ast.unparse(fn)
-            obs.append(ob(f"immutable.{c}.{meth}.resets_hash_memo", "_hashkey = None" in src, "constructor does not reset _hashkey", fn.lineno))
+            resets = [n for n in ast.walk(fn) if isinstance(n, ast.Assign) and any(isinstance(t, ast.Attribute) and t.attr == "_hashkey" for t in n.targets) and is_none(n.value)]
+            others = [n for n in ast.walk(fn) if isinstance(n, ast.Assign) and any(isinstance(t, ast.Attribute) and t.attr == "_hashkey" for t in n.targets) and not is_none(n.value)]
+            obs.append(ob(f"immutable.{c}.{meth}.resets_hash_memo", bool(resets) and not others, "constructor does not (unconditionally) reset the memoised hash key", fn.lineno))
     return rec("frames.immutable", ["C14", "C15"], obs, [{"function": f"abelian_core.{c}", "sha256_16": repo.sha_of(f"abelian_core.{c}"), "line": 0} for c in ("BlockIndex", "SubIndexInfo")])
 
 
@@ -509,41 +515,75 @@ def check_typestate(repo):
 # dtype flow (C20)
 
 
+def _assigned_from(fn, pred):
+    """names assigned (anywhere in fn) from an expression satisfying pred"""
+    out = set()
+    for n in ast.walk(fn):
+        if isinstance(n, ast.Assign) and pred(n.value):
+            for t in n.targets:
+                if isinstance(t, ast.Name):
+                    out.add(t.id)
+    return out
+
+
+def _is_call_to(e, dotted):
+    return isinstance(e, ast.Call) and ast.unparse(e.func) == dotted
+
+
 def check_dtype_flow(repo):
+    """structural (name-agnostic) data-flow facts at the zero-block creation sites"""
     obs = []
     ac = repo.module("abelian_core")
     fuse_core = repo.find("abelian_core.AbelianArray._fuse_core")
-    src = ast.unparse(fuse_core)
-    obs.append(ob("dtype_flow._fuse_core.example_block_from_operand", "_ex_array = self.get_any_array()" in src, "example array is not taken from the operand", fuse_core.lineno))
-    obs.append(ob("dtype_flow._fuse_core.zeros_kwargs_dtype_from_example", "zeros_kwargs['dtype'] = _ex_array.dtype" in src, "dtype of the zero blocks is not taken from the example block", fuse_core.lineno))
-    obs.append(ob("dtype_flow._fuse_core.zeros_fn_from_example_backend", "backend = ar.infer_backend(_ex_array)" in src and "_zeros = ar.get_lib_fn(backend, 'zeros')" in src, "zeros function not resolved from the operand's backend", fuse_core.lineno))
-    # zeros_kwargs reaches both strategies
+    ex = _assigned_from(fuse_core, lambda v: _is_call_to(v, "self.get_any_array"))
+    obs.append(ob("dtype_flow._fuse_core.example_block_from_operand", bool(ex), "no example array taken from the operand (self.get_any_array())", fuse_core.lineno))
+    # a dict K with K["dtype"] = <example>.dtype
+    kdicts = set()
+    for n in ast.walk(fuse_core):
+        if isinstance(n, ast.Assign) and len(n.targets) == 1 and isinstance(n.targets[0], ast.Subscript):
+            t = n.targets[0]
+            if isinstance(t.value, ast.Name) and is_const(t.slice, "dtype") and isinstance(n.value, ast.Attribute) and n.value.attr == "dtype" and isinstance(n.value.value, ast.Name) and n.value.value.id in ex:
+                kdicts.add(t.value.id)
+    obs.append(ob("dtype_flow._fuse_core.zeros_kwargs_dtype_from_example", bool(kdicts), "dtype of the zero blocks is not taken from the example block", fuse_core.lineno))
+    backends = _assigned_from(fuse_core, lambda v: _is_call_to(v, "ar.infer_backend") and v.args and isinstance(v.args[0], ast.Name) and v.args[0].id in ex)
+    zfns = _assigned_from(fuse_core, lambda v: _is_call_to(v, "ar.get_lib_fn") and len(v.args) == 2 and is_const(v.args[1], "zeros") and isinstance(v.args[0], ast.Name) and v.args[0].id in backends)
+    obs.append(ob("dtype_flow._fuse_core.zeros_fn_from_example_backend", bool(zfns), "zeros function not resolved from the operand's backend", fuse_core.lineno))
     calls = [n for n in ast.walk(fuse_core) if isinstance(n, ast.Call) and isinstance(n.func, ast.Name) and n.func.id in ("_fuse_blocks_via_insert", "_fuse_blocks_via_concat")]
-    obs.append(ob("dtype_flow._fuse_core.both_strategies_called", len(calls) == 2, "expected calls to both fuse strategies"))
+    obs.append(ob("dtype_flow._fuse_core.both_strategies_called", {c.func.id for c in calls} == {"_fuse_blocks_via_insert", "_fuse_blocks_via_concat"}, "expected calls to both fuse strategies"))
     for c in calls:
-        argsrc = [ast.unparse(a) for a in c.args]
-        obs.append(ob(f"dtype_flow._fuse_core.passes_zeros_kwargs_to.{c.func.id}", "zeros_kwargs" in argsrc and "_zeros" in argsrc, "zeros function / kwargs not forwarded", c.lineno))
-    for fname in ("_fuse_blocks_via_insert", "_fuse_blocks_via_concat"):
-        fn = ac.functions[fname]
+        callee = ac.functions[c.func.id]
+        params = [a.arg for a in callee.args.args]
+        zpos = [i for i, a in enumerate(c.args) if isinstance(a, ast.Name) and a.id in zfns]
+        kpos = [i for i, a in enumerate(c.args) if isinstance(a, ast.Name) and a.id in kdicts]
+        okc = len(zpos) == 1 and len(kpos) == 1
+        obs.append(ob(f"dtype_flow._fuse_core.passes_zeros_fn_and_kwargs_to.{c.func.id}", okc, "zeros function / dtype kwargs not forwarded to the strategy", c.lineno))
+        if not okc:
+            continue
+        zp, kp = params[zpos[0]], params[kpos[0]]
         k = 0
-        for n in ast.walk(fn):
-            if isinstance(n, ast.Call) and isinstance(n.func, ast.Name) and n.func.id == "_zeros":
+        for n in ast.walk(callee):
+            if isinstance(n, ast.Call) and isinstance(n.func, ast.Name) and n.func.id == zp:
                 k += 1
-                has = any(kw.arg is None and ast.unparse(kw.value) == "zeros_kwargs" for kw in n.keywords)
-                obs.append(ob(f"dtype_flow.{fname}.zeros_site{k}.uses_zeros_kwargs", has, "zero block created without the operand's dtype", n.lineno))
-        obs.append(ob(f"dtype_flow.{fname}.has_zero_creation_site", k >= 1, "no zeros site found (function restructured?)") if k >= 1 else ob(f"dtype_flow.{fname}.has_zero_creation_site", None, "no zeros site found (function restructured?)"))
+                has = any(kw.arg is None and isinstance(kw.value, ast.Name) and kw.value.id == kp for kw in n.keywords)
+                obs.append(ob(f"dtype_flow.{c.func.id}.zeros_site{k}.uses_dtype_kwargs", has, "zero block created without the operand's dtype", n.lineno))
+        obs.append(ob(f"dtype_flow.{c.func.id}.has_zero_creation_site", True if k >= 1 else None, "no zeros site found (function restructured?)"))
+        # no other way of creating zeros in the strategy
+        other = [n for n in ast.walk(callee) if isinstance(n, ast.Call) and ("zeros" in ast.unparse(n.func)) and not (isinstance(n.func, ast.Name) and n.func.id == zp)]
+        obs.append(ob(f"dtype_flow.{c.func.id}.no_other_zero_creation", not other, f"zeros created outside the dtype-carrying function: {[ast.unparse(o)[:50] for o in other[:2]]}", other[0].lineno if other else None))
     for q in ("abelian_core.AbelianArray.fill_missing_blocks", "abelian_core.AbelianArray.to_dense"):
         fn = repo.find(q)
-        s = ast.unparse(fn)
+        exq = _assigned_from(fn, lambda v: _is_call_to(v, "self.get_any_array"))
         k = 0
         for n in ast.walk(fn):
             if isinstance(n, ast.Call) and ast.unparse(n.func) == "ar.do" and n.args and is_const(n.args[0], "zeros"):
                 k += 1
                 like = [kw for kw in n.keywords if kw.arg == "like"]
-                obs.append(ob(f"dtype_flow.{q.split('.')[-1]}.zeros_site{k}.like_example_block", bool(like) and ast.unparse(like[0].value) == "_ex_array" and "_ex_array = self.get_any_array()" in s, "zeros created without like=<operand block>", n.lineno))
+                obs.append(ob(f"dtype_flow.{q.split('.')[-1]}.zeros_site{k}.like_example_block", bool(like) and isinstance(like[0].value, ast.Name) and like[0].value.id in exq, "zeros created without like=<operand block>", n.lineno))
         obs.append(ob(f"dtype_flow.{q.split('.')[-1]}.has_zero_creation_site", True if k >= 1 else None, "no zeros site found"))
     ga = repo.find("block_core.BlockBase.get_any_array")
-    obs.append(ob("dtype_flow.get_any_array.returns_a_stored_block", "next(iter(self._blocks.values())" in ast.unparse(ga), "get_any_array does not return a stored block", ga.lineno))
+    rets = [n for n in ast.walk(ga) if isinstance(n, ast.Return)]
+    okga = len(rets) == 1 and "self._blocks.values()" in ast.unparse(rets[0]) or "self.blocks.values()" in ast.unparse(ga)
+    obs.append(ob("dtype_flow.get_any_array.returns_a_stored_block", bool(okga), "get_any_array does not return a stored block", ga.lineno))
     return rec("frames.dtype_flow", ["C20"], obs, [{"function": "abelian_core.AbelianArray._fuse_core", "sha256_16": repo.sha_of("abelian_core.AbelianArray._fuse_core"), "line": fuse_core.lineno}], assumes=["A-numpy: zeros(shape, dtype=d) has dtype d; ar.do('zeros', shape, like=x) has the dtype of x (checked in the bounded tier C20)"])
 
 
@@ -586,14 +626,26 @@ def check_key_covers(repo):
     ok = isinstance(key_call, ast.Call) and ast.unparse(key_call.func) == "hasher" and len(key_call.args) == 1 and isinstance(key_call.args[0], ast.Tuple)
     obs.append(ob("key_covers.key_is_hasher_of_tuple", ok, "cache key is not hasher((...))", cached.lineno))
     if ok:
-        elts = [ast.unparse(e) for e in key_call.args[0].elts]
-        for need, what in [
-            ("tuple((ix.hashkey() for ix in self.indices))", "hash keys of all indices, in order"),
-            ("tuple(self.blocks)", "the stored sectors, in order"),
-            ("self.symmetry", "the symmetry"),
-            ("axes_groups", "the axes groups"),
+        elts = key_call.args[0].elts
+
+        def is_index_hashkeys(e):
+            # tuple(<v>.hashkey() for <v> in self.indices)
+            if not (_is_call_to(e, "tuple") and len(e.args) == 1 and isinstance(e.args[0], ast.GeneratorExp)):
+                return False
+            g = e.args[0]
+            if len(g.generators) != 1 or g.generators[0].ifs or ast.unparse(g.generators[0].iter) not in ("self.indices", "self._indices"):
+                return False
+            v = g.generators[0].target
+            return isinstance(v, ast.Name) and isinstance(g.elt, ast.Call) and ast.unparse(g.elt) == f"{v.id}.hashkey()"
+
+        second_param = cached.args.args[1].arg if len(cached.args.args) > 1 else None
+        for pred, what in [
+            (is_index_hashkeys, "hash keys of all indices, in order"),
+            (lambda e: ast.unparse(e) in ("tuple(self.blocks)", "tuple(self._blocks)", "tuple(self.blocks.keys())", "self.sectors"), "the stored sectors, in order"),
+            (lambda e: ast.unparse(e) in ("self.symmetry", "self._symmetry"), "the symmetry"),
+            (lambda e: isinstance(e, ast.Name) and e.id == second_param, "the axes groups"),
         ]:
-            obs.append(ob(f"key_covers.key_contains.{what.replace(' ', '_').replace(',', '')}", need in elts, f"cache key does not contain {what}", cached.lineno))
+            obs.append(ob(f"key_covers.key_contains.{what.replace(' ', '_').replace(',', '')}", any(pred(e) for e in elts), f"cache key does not contain {what}", cached.lineno))
     # hash keys cover every slot
     for cls, memo in (("BlockIndex", "_hashkey"), ("SubIndexInfo", "_hashkey")):
         cnode = mod.classes[cls]
@@ -609,8 +661,10 @@ def check_key_covers(repo):
         read = {n.attr for n in ast.walk(hashed) if isinstance(n, ast.Attribute) and isinstance(n.value, ast.Name) and n.value.id == "self"} if hashed is not None else set()
         for sl in sorted(slots - {memo}):
             obs.append(ob(f"key_covers.{cls}.hashkey.covers_slot.{sl}", sl in read, f"{cls}.hashkey does not hash slot {sl}", hk.lineno))
-        src = ast.unparse(hk)
-        obs.append(ob(f"key_covers.{cls}.hashkey.memo_checked_before_use", "getattr(self, '_hashkey', None) is None" in src and "return self._hashkey" in src, "memo protocol changed"))
+        memo_assigns = [n for n in ast.walk(hk) if isinstance(n, ast.Assign) and any(ast.unparse(t) == "self._hashkey" for t in n.targets)]
+        rets = [n for n in ast.walk(hk) if isinstance(n, ast.Return)]
+        okm = bool(memo_assigns) and all(_is_call_to(n.value, "hasher") for n in memo_assigns) and bool(rets) and all(ast.unparse(r.value) == "self._hashkey" for r in rets)
+        obs.append(ob(f"key_covers.{cls}.hashkey.memo_only_set_from_hash_of_current_fields", okm, "hash memo is assigned from something other than the hash of the current fields, or something else is returned"))
     bh = ast.unparse(repo.find("abelian_core.BlockIndex.hashkey"))
     obs.append(ob("key_covers.BlockIndex.hashkey.chargemap_items_in_order", "tuple(self._chargemap.items())" in bh, "chargemap content/order not hashed"))
     obs.append(ob("key_covers.BlockIndex.hashkey.subinfo_hash_or_None", "self._subinfo.hashkey() if self._subinfo else None" in bh, "sub-index info not hashed"))
